@@ -1,10 +1,15 @@
 #!/bin/bash
 # C07: the Rust panic/abort monitor (subprocess workers), then the documented-null / hostile-string patterns
-# of the C entry points in the FFI driver (audit allocator + Miri); the second step merges into the evidence.
+# of the C entry points in the FFI driver (audit allocator + Miri); the second step merges into the evidence;
+# then the panic monitor again, library and monitors built with integer-overflow checks (30 % of the budget in
+# the quick tier, all of it in the thorough tier), merged into the same evidence.
 MODE="$1"; SEED="${2:-1}"
 DIR="$(cd "$(dirname "$0")/../.." && pwd)"
 "$DIR/target/release/rio-mon" C07 --tier "$MODE" --seed "$SEED" --verif-dir "$DIR"; A=$?
 C07_MERGE=1 python3 "$DIR/tools/engines/c18.py" C07 "$MODE" "$SEED"; B=$?
-if [ $A -eq 1 ] || [ $B -eq 1 ]; then exit 1; fi
+if [ "$MODE" = "thorough" ]; then SCALE=100; else SCALE=30; fi
+OVF_SCALE=$SCALE "$DIR/tools/engines/ovf.sh" C07 "$MODE" "$SEED" --second-only; C=$?
+if [ $A -eq 1 ] || [ $B -eq 1 ] || [ $C -eq 1 ]; then exit 1; fi
 if [ $A -ne 0 ]; then exit $A; fi
-exit $B
+if [ $B -ne 0 ]; then exit $B; fi
+exit $C
